@@ -725,6 +725,11 @@ func (g *gen) method(names map[string]bool) *Method {
 		}
 	}
 	m.HTTPPath = strings.Join(segs, "")
+	if rapid.IntRange(0, 3).Draw(t, "methodoptions") == 0 {
+		m.Label = rapid.SampledFrom([]string{"Do it", "Read \"one\""}).Draw(t, "mlabel")
+		m.Hidden = rapid.Bool().Draw(t, "mhidden")
+		g.cls("method-options")
+	}
 	if rapid.IntRange(0, 5).Draw(t, "noresp") == 0 && !g.masked("no-response") {
 		m.NoResponse = true
 		g.cls("no-response")
@@ -754,7 +759,7 @@ func (g *gen) service() *Service {
 
 func (g *gen) topic() *Topic {
 	t := g.t
-	tp := &Topic{Name: g.typeName(g.curPkg.Name + ".topic"), Kind: rapid.SampledFrom([]string{"publish", "reqres", "upsert"}).Draw(t, "topickind")}
+	tp := &Topic{Name: g.typeName(g.curPkg.Name + ".topic"), Kind: rapid.SampledFrom([]string{"publish", "reqres", "upsert", "event"}).Draw(t, "topickind")}
 	g.cls("topic:" + tp.Kind)
 	msgName := func() string {
 		for {
@@ -777,9 +782,34 @@ func (g *gen) topic() *Topic {
 			m.Name = msgName()
 		}
 		tp.Messages = []*TopicMessage{m}
+	case "event":
+		tp.EntityName = g.curPkg.Name + "/" + strings.ToLower(rapid.SampledFrom(typeWords).Draw(t, "evententity"))
+		tp.Messages = []*TopicMessage{{Name: msgName(), Fields: g.simpleFields(rapid.IntRange(0, 3).Draw(t, "nmf"))}}
 	default:
 		tp.Request = &TopicMessage{Fields: g.simpleFields(rapid.IntRange(0, 3).Draw(t, "nrq"))}
 		tp.Reply = &TopicMessage{Fields: g.simpleFields(rapid.IntRange(0, 3).Draw(t, "nrp"))}
+		// named and additional request / reply messages
+		if rapid.IntRange(0, 2).Draw(t, "rqnamed") == 0 {
+			tp.Request.Name = msgName()
+			g.cls("reqres-named")
+		}
+		if rapid.IntRange(0, 2).Draw(t, "rpnamed") == 0 {
+			tp.Reply.Name = msgName()
+		}
+		if rapid.IntRange(0, 3).Draw(t, "morerq") == 0 {
+			tp.MoreRequests = []*TopicMessage{{Name: msgName(), Fields: g.simpleFields(rapid.IntRange(0, 2).Draw(t, "nrq2"))}}
+			if tp.Request.Name == "" {
+				tp.Request.Name = msgName() // several requests: each must be named
+			}
+			g.cls("reqres-multi")
+		}
+		if rapid.IntRange(0, 3).Draw(t, "morerp") == 0 {
+			tp.MoreReplies = []*TopicMessage{{Name: msgName(), Fields: g.simpleFields(rapid.IntRange(0, 2).Draw(t, "nrp2"))}}
+			if tp.Reply.Name == "" {
+				tp.Reply.Name = msgName()
+			}
+			g.cls("reqres-multi")
+		}
 	}
 	return tp
 }
